@@ -10,7 +10,7 @@ import (
 
 func c21Run(r *simkit.Run) {
 	disk := simdisk.New()
-	stcache := []int{0, 100}[r.Draw("state_cache", 0, 1)]
+	stcache := []int{0, 4000}[r.Draw("state_cache", 0, 1)] // never evicting: the LFU cache (bluele/gcache) evicts in Go map order, which no seed controls
 
 	sys, err := openDBSys(disk, stcache)
 	if err != nil {
